@@ -25,3 +25,29 @@ Proof. vm_compute. reflexivity. Qed.
 Theorem update_times_negative_sched_witness :
   exists ns', update_times 66 w_nodes w_set w_t0 = Ok ns' /\ some_negative ns' = true.
 Proof. eexists. split; [vm_compute; reflexivity|vm_compute; reflexivity]. Qed.
+
+(* ---- known finding C15/2 at the level of the model of the passes: two origin links (the start node has an alternate
+   branch for the second origin, which is the FASTER one), departure time 600 s; both passes accept the 17-node array
+   make_est_times hands them (harness case est1037.passes, VERIF_SEED 20261001, real passes bit-identical) and the
+   alternate node is left scheduled LATER than its split node (by minutes, not by rounding): the clause "no node is
+   scheduled later than any predecessor allows" is false of the faithful model. ---- *)
+Definition w2_nodes : list (enode (F:=float)) := [mkN Fnan (Fp 0 2101) (Fp 0 2101) 1 0 0 0 0 2; mkN Fnan (Fp 0 2101) (Fp 0 2101) 2 4 0 0 0 2; mkN Fnan (Fp 0 2101) (Fp 7036874417766400 2057) 3 0 1 0 2 0; mkN Fnan (Fp 7923411596665734 2058) (Fp 5893382324879360 2061) 11 0 2 0 2 1; mkN Fnan (Fp 0 2101) (Fp 0 2101) 5 0 1 0 0 2; mkN Fnan (Fp 0 2101) (Fp 7036874417766400 2057) 6 0 4 0 1 0; mkN Fnan (Fp 4672474547972892 2058) (Fp 8378278603653120 2061) 7 0 5 0 1 1; mkN Fnan (Fp 7505999378950848 2053) (Fp 7036874417766400 2057) 8 0 6 0 3 0; mkN Fnan (Fp 7394450394350856 2056) (Fp 8180366510653440 2060) 9 0 7 0 3 1; mkN Fnan (Fp 6254999482459008 2053) (Fp 7036874417766400 2057) 10 0 8 0 5 0; mkN Fnan (Fp 0 2101) (Fp 0 2101) 15 0 9 14 5 1; mkN Fnan (Fp 4691249611844256 2055) (Fp 7036874417766400 2057) 12 0 3 0 3 0; mkN Fnan (Fp 8072671949477408 2056) (Fp 8180366510653440 2060) 13 0 11 0 3 1; mkN Fnan (Fp 6254999482459072 2053) (Fp 7036874417766400 2057) 14 0 12 0 5 0; mkN Fnan (Fp 0 2101) (Fp 0 2101) 10 0 13 0 0 2; mkN Fnan (Fp 0 2101) (Fp 0 2101) 16 0 10 0 0 2; mkN Fnan (Fp 0 2101) (Fp 0 2101) 0 0 15 0 0 2].
+Definition w2_set : list bool := [false; false; false; false; false; false; false; false; false; false; false; false; false; false; false; false; false].
+Definition w2_t0 : float := (Fp 5277655813324800 2058).
+
+(* some node with an alternate successor (other than its primary one) whose scheduled time exceeds the node's own by
+   more than one second *)
+Definition alt_later_than_split (ns : list (enode (F:=float))) : bool :=
+  existsb (fun nd => negb (Nat.eqb (n_nexta nd) 0) && negb (Nat.eqb (n_nexta nd) (n_next nd)) &&
+                     match nth_error ns (n_nexta nd) with
+                     | Some na => PrimFloat.ltb (PrimFloat.add (n_ts nd) 1%float) (n_ts na)
+                     | None => false end) ns.
+Definition w2_inputs_innocent : bool :=
+  forallb (fun n => PrimFloat.leb 0%float (n_ttn n)) w2_nodes && PrimFloat.leb 0%float w2_t0.
+
+Example witness2_input_ok : w2_inputs_innocent = true.
+Proof. vm_compute. reflexivity. Qed.
+
+Theorem update_times_alt_later_witness :
+  exists ns', update_times 78 w2_nodes w2_set w2_t0 = Ok ns' /\ alt_later_than_split ns' = true.
+Proof. eexists. split; [vm_compute; reflexivity|vm_compute; reflexivity]. Qed.
